@@ -9,7 +9,7 @@ import re
 from ..core import Checker, Rule, attr_calls, callee_is, calls_in, kwarg, resolved_calls, short
 from ..interp import Pins, find_nodes, unparse
 from ..model import AnalysisError
-from .util import effect_table, enclosing_loop, enclosing_stmt, enum_members, every_iteration_reaches, fmt, inline_displays, is_const, parent, returns_of, same, single_def
+from .util import block_of as _block_of, effect_table, enclosing_loop, enclosing_stmt, enum_members, every_iteration_reaches, fmt, inline_displays, is_const, parent, returns_of, same, single_def
 
 P = ("C05", "C01", "C02", "C06", "C08", "C09", "C10", "C11", "C12", "C13", "C14", "C15", "C16")  # pre- and postprocess are part of optimize(P, only <pass>) for every pass
 OPS = ["Equal", "NotEqual", "GreaterEqual", "LessEqual", "GreaterThan", "LessThan"]
@@ -449,6 +449,10 @@ def r_replace_stms(ck: Checker) -> None:
            "inline_aggregate sends the TERM TUPLE of an element through this helper: after `W = I` is inlined the tuple `W,I` reads `I,I`; dropping the duplicate makes it `I`, which coincides with another element's tuple, and the sum loses a summand")
 
 
+def block_of_stmt(func, stmt):  # type: ignore[no-untyped-def]
+    return _block_of(func, stmt) or []
+
+
 def r_exline(ck: Checker) -> None:
     func = ck.func("normalize:exline_term")
     it = ck.interp(func)
@@ -477,6 +481,27 @@ def r_exline(ck: Checker) -> None:
         ck.add("a replaced term comes with its own fresh variable and the equality that defines it", same_term or fresh, func, ret, f"returns `{short(t, 60)}` with assignments `{short(unparse(ls), 90)}`",
                "a variable reused from an earlier occurrence has its defining equality in the scope of THAT occurrence (e.g. the condition of another conditional literal): here it is an unconstrained variable")
     ck.need(n_ret >= 2, "exline_term returns in both cases")
+    # ... and the caller really does: literal and assignments of one exline_literal call go into ONE list, the list of
+    # the scope the literal came from
+    ear = ck.func("normalize:exline_arithmetic_rule")
+    n_pairs = 0
+    for asg in find_nodes(ear.node, lambda n: isinstance(n, ast.Assign)):
+        tg = asg.targets[0]  # type: ignore[attr-defined]
+        if not (isinstance(asg.value, ast.Call) and callee_is(ck.prg, ear, asg.value, "ngo.normalize:exline_literal") and isinstance(tg, ast.Tuple) and len(tg.elts) == 2 and all(isinstance(e, ast.Name) for e in tg.elts)):  # type: ignore[attr-defined]
+            continue
+        lit_n, asg_n = tg.elts[0].id, tg.elts[1].id
+        src_txt = unparse(asg.value.args[0])  # type: ignore[attr-defined]
+        if src_txt.endswith(".head"):
+            continue  # head arithmetic: the assignments go to the rule body (checked by the head obligation above)
+        n_pairs += 1
+        blk = block_of_stmt(ear, asg)
+        after = blk[blk.index(asg) + 1:] if blk and asg in blk else []
+        takers = [c for s_ in after for c in ast.walk(s_) if isinstance(c, ast.Call) and isinstance(c.func, ast.Attribute) and c.func.attr in ("extend", "append") and any(isinstance(x, ast.Name) and x.id == asg_n for a in c.args for x in ast.walk(a))]
+        lit_takers = [c for s_ in after for c in ast.walk(s_) if isinstance(c, ast.Call) and isinstance(c.func, ast.Attribute) and c.func.attr in ("extend", "append") and any(isinstance(x, ast.Name) and x.id == lit_n for a in c.args for x in ast.walk(a))]
+        together = len(takers) == 1 and len(lit_takers) == 1 and unparse(takers[0].func.value) == unparse(lit_takers[0].func.value)
+        ck.add("a literal and the assignments that define its fresh variables stay in the same scope", together, ear, asg, f"`{lit_n}` of `{short(unparse(asg.value), 50)}` goes to {[unparse(c.func.value) for c in lit_takers]}, its assignments `{asg_n}` to {[unparse(c.func.value) for c in takers]}",
+               "`free(C) : adj(C, P+(1..2))` becomes `free(C) : adj(C,AUX), AUX = P+(1..2)` (for all offsets); with the assignment in the rule body it reads `AUX = P+(1..2); free(C) : adj(C,AUX)` (for some offset)")
+    ck.need(n_pairs >= 2, "exline_arithmetic_rule ex-lines body literals and conditions")
     el = ck.func("normalize:exline_literal")
     ite = ck.interp(el)
     cs = resolved_calls(ck.prg, el, "ngo.normalize:exline_term")
